@@ -223,6 +223,11 @@ func execute(sc scenario, in *injection, keepTrace bool) runResult {
 				res.Trace = append(res.Trace, p.Trace()...)
 			}
 		}
+		// an injection addressed to a pass that did not take place in its round (the object it was
+		// aimed at is gone by then) cannot happen any more
+		for pending != nil && pending.Drift == "" && pending.Round <= r {
+			pending = pending.Next
+		}
 		res.Shape = append(res.Shape, shape)
 		ready(w)
 		w.GC()
@@ -550,7 +555,10 @@ func run(o checks.Opts) *report.Report {
 				}
 			}
 		}
-		if !o.Quick() {
+		if !o.Quick() && sc.NoDriftFrom == 0 {
+			// (not in the scenarios that pause the ObjectSet in a fixed round: two faults in a row can
+			// hold the rollout up until the pause arrives, and a paused ObjectSet legitimately stays
+			// where it is - the pause then meets an unrepaired state, which is not what they are about)
 			// pairs: a second fault two rounds after each first fault (sampled positions: every 3rd)
 			base := len(injs)
 			for i := 0; i < base; i += 3 {
